@@ -41,5 +41,5 @@ HARNESSES += [HH(x, tiers=('thorough',)) for x in seqs('abswBR', 4, minlen=4)]
 ASSUMPTIONS = ['tier S: one call of one real state-machine function from an arbitrary 64-bit state word and arbitrary width in [1,4094]; before each atomic access to the word another thread may replace it by any value of the stated envelope (at most 2 times) - this models CAS interference',
                'QoS-override side paths (_dispatch_queue_override_self) are excluded: states with role BASE_ANON and max-QoS > 0 are outside the drain_try_lock lemma',
                'rmw retry loops unwound 5 times with unwinding assertions (2 interferences need at most 3 iterations)']
-LEVEL_TEXT = 'Tier S: all four ways of acquiring a queue (drain lock, barrier-sync fast path, sync reader width, async width) from all 2^64 state words and widths with bounded interference: the exclusion lemma (nothing is acquired while another owner holds the queue in barrier mode; the barrier-sync fast path only from the completely idle word; readers never overtake queued items). Tier H: all sequences up to length 3 (thorough 4) of async/sync/barrier_sync/async_and_wait/worker on a serial queue with FIFO and one-at-a-time assertions, plus nested histories in which a second client thread submits synchronously while an item is running (overlap would be an assertion failure).'
-LEVEL_NOTE = 'Sequential histories; a second client that has to sleep ends its path (everything before is checked); interference bound 2; QoS override side paths excluded; main-queue vtable variant not exercised.'
+LEVEL_TEXT = 'Tier S: all four ways of acquiring a queue (drain lock, barrier-sync fast path, sync reader width, async width) from all 2^64 state words and widths with bounded interference: the exclusion lemma (nothing is acquired while another owner holds the queue in barrier mode; the barrier-sync fast path only from the completely idle word; readers never overtake queued items). Tier H: all sequences up to length 3 (thorough 4) of async/sync/barrier_sync/async_and_wait/worker on a serial queue with FIFO and one-at-a-time assertions, plus nested histories in which a second client thread submits synchronously while an item is running (overlap would be an assertion failure). Main queue: every synchronous submission API on the real static _dispatch_main_q held by another thread (all other state bits arbitrary) enqueues and sleeps, never runs its item inline; on an idle serial queue every synchronous API in its function, plain-block and block-object (dispatch_block_create) form runs the item only while the caller is the exclusive owner (owner = caller, IN_BARRIER) and leaves the queue idle.'
+LEVEL_NOTE = 'Sequential histories; a second client that has to sleep ends its path (everything before is checked); interference bound 2; QoS override side paths excluded; main-queue vtable variant not exercised. The main queue is covered by the two tier-S lemmas only (held => never inline; idle => exclusive owner), not by histories through its runloop vtable.'
